@@ -80,6 +80,10 @@ theorem C20_wiring :
     Sso.Generated.skel_auth_SignInPage =
       ["call:WriteHeader", "call:TrimPrefix", "call:ResolveReference", "call:Query", "call:Get", "call:Parse", "call:Data", "call:Data", "call:String", "call:ExecuteTemplate"] := by decide
 
+/-- Tie (T1): no non-test file of either service imports `text/template` (which renders without escaping): every page is
+rendered by `html/template`, whose contextual escaper is what the theorems above are about. -/
+theorem C20_no_text_template : Sso.Generated.textTemplateImporters = [] := by decide
+
 /-- Tie (T1): none of html/template's *trusted content* types (`template.HTML`, `JS`, `URL`, … — values written without
 escaping) is used anywhere in the services' sources: every value a template receives is escaped for its context. -/
 theorem C20_no_trusted_template_types : Sso.Generated.trustedTemplateTypes = [] := by decide
